@@ -537,11 +537,42 @@ theorem LE16_hi12_lens (B s : Nat) (c f : String) (hs : s = 8 * B + 0 + 4) :
     rw [and_low _ 12 0xfff (by decide), ← getN_sub 4 12 (8 * B + 0) 16 X (by decide)]
     simp only [getN_arith 4 12, Nat.shiftRight_eq_div_pow]
 
+/-! ### DHCPv6 -/
+theorem DHCPv6_transaction_id_lens : (⟨"DHCPv6", "transaction_id", 0, 24, 1, DHCPv6_get_transaction_id, DHCPv6_set_transaction_id⟩ : CustomAcc).IsLens := by
+  intro v X hv
+  simp only [Nat.mul_one, Nat.div_one, Nat.reducePow] at hv ⊢
+  constructor
+  · simp only [DHCPv6_set_transaction_id, DHCPv6_header_data__1, DHCPv6_header_data__2, DHCPv6_header_data__3]
+    simp (config := {decide := true}) only [memSet, Nat.reduceAdd, Nat.reduceMul, Nat.reduceSub, ite_true]
+    generalize ha : (v % 4294967296) >>> 16 = a
+    generalize hb : (v % 4294967296) >>> 8 = b
+    generalize hc : (v % 4294967296) &&& 255 = c
+    rewrite [putN_comm 0 8 8 8 c b _ (by decide), putN_comm 0 8 16 8 c a _ (by decide), putN_comm 8 8 16 8 b a _ (by decide)]
+    rewrite [putN_adj' 0 8 8 8 16 _ _ _ (by decide) (by decide), putN_adj' 0 16 8 16 24 _ _ _ (by decide) (by decide)]
+    apply putN_congr
+    subst ha hb hc
+    simp only [and_low _ 8 255 (by decide), Nat.shiftRight_eq_div_pow, Nat.reducePow, Nat.mod_mod]
+    omega
+  · simp only [DHCPv6_get_transaction_id, DHCPv6_header_data__1, DHCPv6_header_data__2, DHCPv6_header_data__3]
+    simp (config := {decide := true}) only [memGet, Nat.reduceAdd, Nat.reduceMul, Nat.reduceSub, ite_true]
+    rw [getN_adj' 0 16 8 16 24 X (by decide) (by decide), getN_adj' 0 8 8 8 16 X (by decide) (by decide)]
+    have g1 := getN_lt 16 8 X
+    have g2 := getN_lt 8 8 X
+    have g3 := getN_lt 0 8 X
+    generalize getN 16 8 X = p at *
+    generalize getN 8 8 X = q at *
+    generalize getN 0 8 X = r at *
+    simp only [Nat.reducePow] at g1 g2 g3 ⊢
+    rw [Nat.shiftLeft_eq, Nat.shiftLeft_eq, or_eq_add (p * 2 ^ 16) (q * 2 ^ 8) 16 (by omega) (by omega)]
+    simp only [Nat.reducePow]
+    rw [or_eq_add _ r 8 (by omega) (by omega)]
+    omega
+
 /-- every hand-written model in `Custom.table` is the lens at its declared position -/
 theorem table_sound : ∀ a ∈ table, a.IsLens := by
   intro a ha
   simp only [table, List.mem_cons, List.not_mem_nil, or_false] at ha
-  rcases ha with rfl | rfl | rfl | rfl | rfl | rfl | rfl | rfl | rfl | rfl | rfl | rfl | rfl | rfl | rfl | rfl | rfl | rfl | rfl | rfl | rfl | rfl | rfl | rfl | rfl | rfl | rfl | rfl | rfl | rfl | rfl | rfl | rfl | rfl
+  rcases ha with rfl | rfl | rfl | rfl | rfl | rfl | rfl | rfl | rfl | rfl | rfl | rfl | rfl | rfl | rfl | rfl | rfl | rfl | rfl | rfl | rfl | rfl | rfl | rfl | rfl | rfl | rfl | rfl | rfl | rfl | rfl | rfl | rfl | rfl | rfl
   · exact IP_flags_lens
   · exact IP_fragment_offset_lens
   · exact IPv6_traffic_class_lens
@@ -567,6 +598,7 @@ theorem table_sound : ∀ a ∈ table, a.IsLens := by
   · exact STP_timer_lens 29 32 "max_age" (by decide)
   · exact STP_timer_lens 31 16 "hello_time" (by decide)
   · exact STP_timer_lens 33 0 "fwd_delay" (by decide)
+  · exact DHCPv6_transaction_id_lens
   · exact LE16_low4_lens 22 176 _ _ (by decide)
   · exact LE16_hi12_lens 22 180 _ _ (by decide)
   · exact LE16_low4_lens 22 176 _ _ (by decide)
